@@ -594,8 +594,6 @@ def run_c36(ctx, pid):
         mm = vlib.tuples(r.out, "MISMATCH")
         if len(mm) != r.out.count('"MISMATCH"'):
             raise vlib.Infra("unparsed MISMATCH lines in monitor output (%s)" % label)
-        if any("HARNESS" in str(m[2]) for m in mm):
-            raise vlib.Infra("harness bookkeeping disagrees with the monitor (%s): %s" % (label, mm[0]))
         return [(int(m[1]), m[2], m[3]) for m in mm], n
 
     def conformance(rows, tb):
@@ -636,13 +634,20 @@ def run_c36(ctx, pid):
 
     known_hits = collections.Counter()
     unknown = []
+    harness_rows = []    # the driver's own bookkeeping disagrees with the monitor: never a verdict
     for label, path, mm in results:
         if not mm:
             continue
         trows = vlib.read_ndjson(path)
         spans = split_behaviours(trows)
-        for (line, what, sid) in mm:
+        for (line, what, sid) in sorted(mm):
             a, b = next(((a, b) for a, b in spans if a < line <= b), (0, len(trows)))
+            if "HARNESS" in str(what):
+                # only a consequence when a genuine unexplained mismatch precedes it in the same history (judged on its own);
+                # otherwise the infrastructure is at fault
+                if not any(u[1] == path and a < u[2] < line for u in unknown):
+                    harness_rows.append((label, line, what, sid))
+                continue
             h = trows[a:b]
             # late events of an earlier history (a spawn single-flight that outlived its callers) do not belong to this one
             keep = [r for r in h if r.get("id", h[0]["id"]) == h[0]["id"] and (r["ev"] != "op" or r.get("key") in ("", h[0]["id"]))]
@@ -684,6 +689,9 @@ def run_c36(ctx, pid):
         finish(violations=len(unknown))
         raise vlib.Violation(pid, rp, "%s: %s (trace line %d of %s, singleton %s; %d unexplained mismatches)" %
                              (label, what, line, os.path.basename(path), h[0].get("id"), len(unknown)))
+    if harness_rows:
+        finish()
+        raise vlib.Infra("harness bookkeeping disagrees with the monitor (%s, trace line %d, %s): %s" % harness_rows[0])
     if drift_conf:
         ctx.log("conformance drift (not a verdict): %s" % drift_conf)
     if drift_by:
